@@ -13,6 +13,7 @@ use brc20_prog::verif::{
     BlockCachedDatabase, BlockDatabase, BlockHistoryCache, BlockHistoryCacheData, Decode, Encode, U128ED, U256ED,
 };
 
+use brc20_prog::verif as v;
 use crate::out::Out;
 use crate::rng::Rng;
 
@@ -83,6 +84,30 @@ fn show_kv(l: &[(Vec<u8>, Vec<u8>)]) -> String {
 }
 fn show_kh(l: &[(Vec<u8>, Vec<u8>)]) -> String {
     l.iter().map(|(k, v)| format!("{}={}", hex::encode(k), show_hist_bytes(v))).collect::<Vec<_>>().join(",")
+}
+
+/// The persistent writes recorded since the last `take_events`, in issue order within a key, keys in byte order
+/// (the cache is a hash map: the order across keys is arbitrary, the order within a key is what a crash can cut).
+fn persistent_writes() -> String {
+    v::set_enabled(false);
+    let mut ws: Vec<(Vec<u8>, String)> = Vec::new();
+    for e in v::take_events() {
+        let p: Vec<&str> = e.split(' ').collect();
+        if p.len() != 5 || p[0] != "W" {
+            continue;
+        }
+        let key = hex::decode(p[3]).unwrap_or_default();
+        let line = match (p[1], p[2]) {
+            ("t_cache", "put") => format!("cdb put {} {}", p[3], show_hist_bytes(&hex::decode(p[4]).unwrap_or_default())),
+            ("t_cache", "del") => format!("cdb del {}", p[3]),
+            ("t", "put") => format!("db put {} {}", p[3], p[4]),
+            ("t", "del") => format!("db del {}", p[3]),
+            _ => format!("? {}", e),
+        };
+        ws.push((key, line));
+    }
+    ws.sort_by(|a, b| a.0.cmp(&b.0)); // stable
+    ws.into_iter().map(|w| w.1).collect::<Vec<_>>().join(";")
 }
 
 fn dump(t: &Tab) -> String {
@@ -434,10 +459,13 @@ fn exec_op(s: &mut State, ws: &[&str], out: &mut Out) -> String {
             format!("[{}]", got.join(","))
         }
         ["commit", b] => {
+            let _ = v::take_events();
+            v::set_enabled(true);
             s.t.as_mut().unwrap().commit(num(b)).unwrap();
+            let ws = persistent_writes();
             s.r.commit(num(b));
             check_reads(out, &case, s.t.as_ref().unwrap(), &s.r, "after commit");
-            "ok".into()
+            format!("ok {}", ws)
         }
         ["clear"] => {
             s.t.as_mut().unwrap().clear_cache();
@@ -473,7 +501,11 @@ fn exec_op(s: &mut State, ws: &[&str], out: &mut Out) -> String {
                     })
                     .collect()
             };
-            match catch_unwind(AssertUnwindSafe(|| tab.reorg(n))) {
+            let _ = v::take_events();
+            v::set_enabled(true);
+            let reorg_result = catch_unwind(AssertUnwindSafe(|| tab.reorg(n)));
+            let ws = persistent_writes();
+            match reorg_result {
                 Ok(_) => {
                     let before = s.r.clone();
                     s.r.reorg(n);
@@ -498,7 +530,7 @@ fn exec_op(s: &mut State, ws: &[&str], out: &mut Out) -> String {
                             );
                         }
                     }
-                    "ok".into()
+                    format!("ok {}", ws)
                 }
                 Err(_) => {
                     if inside {
